@@ -34,8 +34,7 @@ func (si SuInt64) Compare(other Value) int {
 	if i2, ok := SuIntToInt(other); ok {
 		return cmp.Compare(si.int64, int64(i2))
 	}
-	dn, _ := si.ToDnum()
-	return dnum.Compare(dn, other.(SuDnum).Dnum)
+	return compareIntDnum(si.int64, other.(SuDnum).Dnum)
 }
 
 func (si SuInt64) Equal(other any) bool {
